@@ -15,6 +15,7 @@ class Killed(BaseException):
 
 CUR = [None]       # the active scheduler (None: primitives behave trivially, single-threaded set-up code)
 MAX_STEPS = 4000
+STALL_S = 240
 
 
 class Sched:
@@ -88,7 +89,8 @@ class Sched:
             while not t.done and n < 10000:
                 t.kill = True
                 t.sem.release()
-                self.main.acquire()
+                if not self.main.acquire(timeout=STALL_S):
+                    break
                 n += 1
         for t in self.thr:
             t.thread.join(timeout=5)
@@ -141,7 +143,10 @@ class Sched:
                 self.preempt += 1
             self.cur = pick
             pick.sem.release()
-            self.main.acquire()
+            if not self.main.acquire(timeout=STALL_S):
+                # never reported as a verdict: the harness lost track of the running thread (exit 2)
+                raise RuntimeError("scheduler stalled: thread %s neither finished nor reached a scheduling point within "
+                                   "%d s (last at %r)" % (pick.name, STALL_S, pick.at))
 
 
 # ------------------------------------------------------------------------------------------- primitives
@@ -201,10 +206,17 @@ class Condition:
         tok = [False]
         self.waiters.append(tok)
         self.lock.owner = None
-        s.block_until(lambda: tok[0], "cond.wait", id(self))
+        if timeout is None:
+            s.block_until(lambda: tok[0], "cond.wait", id(self))
+        else:
+            # a timed wait stays enabled: when the scheduler lets the thread move before it was notified, the
+            # time-out has elapsed (any amount of time may pass between two steps of another thread)
+            s.point("cond.wait(timeout)", id(self))
+            if not tok[0] and tok in self.waiters:
+                self.waiters.remove(tok)
         s.block_until(lambda: self.lock.owner is None, "lock.reacquire", id(self.lock))
         self.lock.owner = s.me()
-        return True
+        return tok[0]
 
     def notify(self, n=1):
         s = CUR[0]
